@@ -5,7 +5,7 @@
    interleavings of application writes / EOF / close on the sending side, pause / resume (with
    the session pausing again after any number of deliveries) on the receiving side, and delivery
    of the next packet on either wire. *)
-From AV Require Import Base.Prelude Model.Channel Proofs.ChannelProofs.
+From AV Require Import Base.Prelude Model.Channel Proofs.ChannelProofs Proofs.ChannelEofProofs.
 
 (* Safety, every reachable state: the byte sequence (with its data types) handed to the receiving
    session, followed by what is still buffered at the receiver, in flight, and buffered at the
@@ -30,9 +30,21 @@ Theorem C07_complete_when_drained : forall strict window pktsize ops,
 Proof. exact quiescent_complete. Qed.
 Print Assumptions C07_complete_when_drained.
 
-(* C07_eof_last (EOF is delivered only after all data, and only if signalled) is established by the
-   correspondence check and the direct oracle only; the model orders EOF/CLOSE through the same
-   FIFO (inv_walk in ChannelProofs.v) but the token-level theorem is not stated yet. *)
+(* EOF last: in every reachable state of every honest schedule, if end-of-file has been handed to the
+   receiving session then everything the sender wrote has been delivered before it (nothing is left
+   buffered, in flight or unsent), and the only thing that can follow EOF is the close notification. *)
+Theorem C07_eof_last : forall strict window pktsize ops,
+  1 <= window -> 1 <= pktsize -> Forall honest ops ->
+  let y := run strict window pktsize ops in
+  In TEof (r_out (rcv_ y)) ->
+  toks_data (r_out (rcv_ y)) = toks_data (written y) /\ only_close (after_eof (r_out (rcv_ y))).
+Proof. exact eof_last. Qed.
+Print Assumptions C07_eof_last.
+
+(* "EOF only if the sender signalled it" and "EOF eventually if signalled" are covered by the
+   correspondence check and the direct oracle, not by a theorem: when the sender closes while its EOF
+   is still queued behind unsent data, or the peer's CLOSE overtakes a pending EOF at a paused
+   receiver, asyncssh subsumes the EOF in the close notification (modelled faithfully). *)
 
 Example C07_example :
   let y := run true 4 3 [OWrite 0 [1;2;3;4;5;6;7]; OPause; ODeliverFwd; ODeliverFwd; OEof; OResume None;
